@@ -174,16 +174,9 @@ class Ctx:
         if f is not None:
             self.known_hits[tag] = self.known_hits.get(tag, 0) + 1
             return False
-        self._nrep += 1
-        if self._nrep > 5:   # enough replays for one run
-            self.violations.append((what, None, no_input))
-            return True
-        rp = VERIF / "replays" / f"{self.prop}-{self.seed}-{self._nrep}.json"
-        rp.parent.mkdir(exist_ok=True)
-        rp.write_text(json.dumps(
-            {"property": self.prop, "kind": kind, "what": what, "seed": self.seed, "tier": self.tier,
-             "finding_tag": tag, "case": case}, indent=1, default=repr, ensure_ascii=True))
-        self.violations.append((what, rp, no_input))
+        # replay files are written in finish(): failing inputs of the property first, then broken proofs / correspondences
+        self.violations.append((what, {"property": self.prop, "kind": kind, "what": what, "seed": self.seed, "tier": self.tier,
+                                       "finding_tag": tag, "case": case}, no_input))
         return True
 
     # -- finish -----------------------------------------------------------------------------
@@ -210,17 +203,22 @@ class Ctx:
         (VERIF / "evidence" / f"{self.prop}.json").write_text(
             json.dumps(ev, indent=1, default=repr, ensure_ascii=True) + "\n")
         shutil.rmtree(self.tmp, ignore_errors=True)
-        seen = set()
-        for what, rp, no_input in self.violations:
-            if rp is None:
-                continue
+        concrete = [v for v in self.violations if not v[2]]
+        broken = [v for v in self.violations if v[2]]
+        # a broken proof / correspondence is reported on its own only when the search found no failing input;
+        # otherwise the failing inputs are the replays and the broken obligations are named inside them
+        ordered = concrete if concrete else broken
+        for k, (what, data, no_input) in enumerate(ordered[:5], 1):
+            if concrete and broken:
+                data = dict(data, broken_obligations=[b[0][:300] for b in broken[:5]])
+            rp = VERIF / "replays" / f"{self.prop}-{self.seed}-{k}.json"
+            rp.parent.mkdir(exist_ok=True)
+            rp.write_text(json.dumps(data, indent=1, default=repr, ensure_ascii=True))
             line = f"VIOLATION property={self.prop} replay={rp}"
             if no_input:
                 line += " no-failing-input-found"
-            if line not in seen:
-                print(line)
-                print(f"  -> {what}"[:600])
-                seen.add(line)
+            print(line)
+            print(f"  -> {what}"[:600])
         print(f"[{self.prop}] tier={self.tier} seed={self.seed} evaluations={cov['evaluations']} "
               f"distinct_nontrivial={cov['distinct_nontrivial']} corr={cov['traces_validated_against_impl']} "
               f"theorems={cov['discharged']}/{cov['obligations']} violations={nviol} wall={wall:.1f}s")
